@@ -264,6 +264,10 @@ class Engine:
                         if gen is not None and inspect.isgeneratorfunction(gen):
                             # a @contextmanager: run the generator body with the with-block supplied by the spec
                             val = it.call_function(gen, st.get("args", ()), st.get("kwargs", {}), yield_body=st["body"])
+                        elif getattr(spec, "fragment", None) is not None:
+                            # a statement range of the real function, extracted mechanically from its current AST;
+                            # everything outside the range is dropped (stated in the spec's docstring)
+                            val = self.run_fragment(it, spec, st)
                         elif is_repo_function(func):
                             val = it.call_function(func, st.get("args", ()), st.get("kwargs", {}))
                         else:
@@ -308,6 +312,43 @@ class Engine:
                           "cxs": cxs})
         self.current = None
         return all_obs, diags[0]
+
+    def run_fragment(self, it, spec, st):
+        """execute the consecutive statements [first .. last] of the real function body that match the spec's
+        predicates (on ast.unparse text); locals come from st['env']; returns the final local environment"""
+        import ast as _ast
+        from .interp import Frame, func_ast, defining_class
+        func = spec.func
+        node, path, seg = func_ast(func)
+        first_pred, last_pred = spec.fragment
+        stmts = None
+
+        def search(body):
+            nonlocal stmts
+            for i, s_ in enumerate(body):
+                if stmts is None and first_pred(_ast.unparse(s_)):
+                    for j in range(i, len(body)):
+                        if last_pred(_ast.unparse(body[j])):
+                            stmts = body[i:j + 1]
+                            return
+                for fld in ("body", "orelse", "finalbody"):
+                    sub = getattr(s_, fld, None)
+                    if isinstance(sub, list) and stmts is None:
+                        search(sub)
+        search(node.body)
+        if stmts is None:
+            raise OutOfSubset(f"fragment of {func.__qualname__} not found (the code no longer has the expected statements)")
+        self.note_function(func, inlined=False)
+        self.functions[f"{func.__module__}:{func.__qualname__}"]["fragment_lines"] = [stmts[0].lineno, getattr(stmts[-1], "end_lineno", stmts[-1].lineno)]
+        env = dict(st["env"])
+        fr = Frame(func, env, func.__globals__, defining_class(func), func.__qualname__)
+        fr.path = path
+        it.frames.append(fr)
+        try:
+            it.exec_block(stmts, fr)
+        finally:
+            it.frames.pop()
+        return env
 
     def _check_frame(self, cx, spec, st, frame, writes):
         allowed = set()
